@@ -1,14 +1,14 @@
 SPECIFICATION Spec
-CONSTANTS NC = 3
- K = 2
+CONSTANTS NC = 2
+ K = 1
  MaxVotes = 2
  MaxLive = 3
  MaxSteps = 0
  RestartAnywhere = FALSE
  Touch = {0}
- VMaps = {100}
- Persist = FALSE
- MaxChg = 3
+ VMaps = {@VMAPS@}
+ Persist = TRUE
+ MaxChg = 1
  Dev = {}
 INVARIANTS TypeOK TopIsFullSort FileOK
 PROPERTIES RestartKeepsTop
